@@ -745,6 +745,20 @@ class BList(SymBytes):
         return "B%r" % (c,) if c is not None else "BList(%d)" % len(self.items)
 
 
+class BFill(SymBytes):
+    """`length` copies of one byte value"""
+
+    def __init__(self, value, length):
+        self.value = value
+        self.length = length
+
+    def at(self, i):
+        return self.value
+
+    def __repr__(self):
+        return "BFill(%s,len=%s)" % (self.value, self.length)
+
+
 class BBase(SymBytes):
     """arbitrary bytes: uninterpreted function Int->Int plus a length term"""
 
@@ -1354,7 +1368,7 @@ class Engine:
         if r == "unsat":
             ob = Obligation(name, "discharged", time.time() - t0, kind=kind, lineno=lineno)
         elif r == "sat":
-            ob = Obligation(name, "refuted", time.time() - t0, model=self.extract_model(), kind=kind, lineno=lineno)
+            ob = Obligation(name, "refuted", time.time() - t0, model=self.small_model(), kind=kind, lineno=lineno)
         else:
             smt2 = self.solver.to_smt2()
             ob = Obligation(name, "unknown", time.time() - t0, kind=kind, lineno=lineno,
@@ -1374,6 +1388,23 @@ class Engine:
     def declare(self, name, kind, handle):
         self.symbols.append((name, kind, handle))
 
+    def small_model(self):
+        """prefer a counter-model with short byte strings (replayable); fall back to whatever z3 found"""
+        first = self.extract_model()
+        lens = [T(h.length) for _, kind, h in self.symbols if kind == "bytes" and not isinstance(h.length, int)]
+        if not lens:
+            return first
+        for bound in (24, 200, 2000):
+            self.solver.push()
+            for t in lens:
+                self.solver.add(t <= bound)
+            r = self._check()
+            m = self.extract_model() if r == "sat" else None
+            self.solver.pop()
+            if m is not None:
+                return m
+        return first
+
     def extract_model(self):
         m = self.solver.model()
         out = {}
@@ -1387,7 +1418,7 @@ class Engine:
                     n = h.length
                     if not isinstance(n, int):
                         n = m.eval(T(n), model_completion=True).as_long()
-                    if n > 70000:
+                    if n > 3000:
                         out[name] = {"too_long": n}
                         continue
                     bs = []
